@@ -1,12 +1,256 @@
 package node
 
 import (
+	"fmt"
 	"math/rand"
+	"sort"
+	"strings"
+	"time"
+
+	commonmodels "github.com/lindb/common/models"
 
 	"verifsim/core"
 )
 
+// ---- C12: the answer does not depend on sharding, node placement or response order -----------
+//
+// One engine holds the same points twice: database A with one shard, database K with 2-4 shards over
+// which the series are spread. Every query is executed under several physical layouts
+//   - A: one leaf
+//   - K: one leaf with all shards
+//   - K: the shards partitioned over 2..k leaf nodes (some partitions leave a leaf with shards that hold
+//     no matching data)
+//   - K: the same partition with an intermediate node between root and leaves (group-by queries)
+// each with tape-chosen transit times of the responses, so arrival order and the interleaving of arrivals
+// with leaves that still work vary. Every answer is compared with the reference model of C11 and the
+// answers are compared with each other.
+
 func genC12(rng *rand.Rand, tier string) *core.Plan {
-	return &core.Plan{Harness: "node", Prop: "C12", Cfg: map[string]int{}}
+	p := &core.Plan{Harness: "node", Prop: "C12", Cfg: map[string]int{}}
+	p.Cfg["preempt_pm"] = []int{0, 0, 2, 10}[rng.Intn(4)]
+	p.Cfg["switch_pm"] = []int{50, 300}[rng.Intn(2)]
+	p.Cfg["max_steps"] = 6000000
+	p.Cfg["procs"] = rng.Intn(3)
+	p.Cfg["shards"] = 2 + rng.Intn(3)
+	p.Cfg["nseries"] = 2 + rng.Intn(10)
+	p.Cfg["sseed"] = rng.Intn(1 << 20)
+	n := 3 + rng.Intn(6)
+	for i := 0; i < n; i++ {
+		switch r := rng.Intn(100); {
+		case r < 45:
+			p.Ops = append(p.Ops, core.Op{K: "write", A: int64(1 + rng.Intn(12)), S: fmt.Sprint(rng.Intn(1 << 30))})
+		case r < 60:
+			p.Ops = append(p.Ops, core.Op{K: "flush"})
+		default:
+			p.Ops = append(p.Ops, core.Op{K: "query", S: fmt.Sprint(rng.Intn(1 << 30)), A: int64(rng.Intn(1 << 20))})
+		}
+	}
+	p.Ops = append(p.Ops, core.Op{K: "query", S: fmt.Sprint(rng.Intn(1 << 30)), A: int64(rng.Intn(1 << 20))})
+	return p
 }
-func runC12(c *core.RunCtx) {}
+
+type layoutDef struct {
+	name string
+	r    *run
+	lay  Layout
+}
+
+func runC12(c *core.RunCtx) {
+	n, err := Start(c, c.Dir)
+	if err != nil {
+		c.Anomaly("start: %v", err)
+		return
+	}
+	k := c.Plan.C("shards", 2)
+	tag := NewTag()
+	ra := &run{c: c, n: n, db: "a" + tag, shards: 1}
+	rk := &run{c: c, n: n, db: "k" + tag, shards: k}
+	for _, r := range []*run{ra, rk} {
+		if err := n.CreateDB(r.db, r.shards); err != nil {
+			c.Anomaly("create db: %v", err)
+			return
+		}
+		r.genSeries()
+	}
+	for i, op := range c.Plan.Ops {
+		if c.Violated() || c.Res.Anomaly != "" {
+			return
+		}
+		c.Sim.Event("op %d %s", i, op.String())
+		switch op.K {
+		case "write":
+			ra.write(op)
+			rk.write(op)
+		case "flush":
+			ra.flush()
+			rk.flush()
+		case "query":
+			queryC12(c, ra, rk, op)
+		}
+	}
+}
+
+func queryC12(c *core.RunCtx, ra, rk *run, op core.Op) {
+	rng := rand.New(rand.NewSource(atoi(op.S)))
+	q := genQuery(rng, "C11")
+	sqlText := q.sql()
+	before := len(rk.points)
+	exp := rk.expected(q, before)
+	k := rk.shards
+	lrng := rand.New(rand.NewSource(op.A))
+	delay := func() time.Duration {
+		return []time.Duration{0, 0, time.Millisecond, 3 * time.Millisecond}[c.Sim.Tape.Choose(4)]
+	}
+	all := make([]int, k)
+	for i := range all {
+		all[i] = i
+	}
+	// a random partition of the shards over 2..k leaves
+	nl := 2 + lrng.Intn(k-1)
+	part := make([][]int, nl)
+	perm := lrng.Perm(k)
+	for i, s := range perm {
+		li := i
+		if i >= nl {
+			li = lrng.Intn(nl)
+		}
+		part[li] = append(part[li], s)
+	}
+	for i := range part {
+		sort.Ints(part[i])
+	}
+	layouts := []layoutDef{
+		{"one shard", ra, Layout{Leaves: [][]int{{0}}, Delay: delay}},
+		{fmt.Sprintf("%d shards on one leaf", k), rk, Layout{Leaves: [][]int{all}, Delay: delay}},
+		{fmt.Sprintf("%d shards on leaves %v", k, part), rk, Layout{Leaves: part, Delay: delay}},
+	}
+	if len(q.groupBy) > 0 {
+		layouts = append(layouts, layoutDef{fmt.Sprintf("%d shards on leaves %v through an intermediate node", k, part), rk, Layout{Leaves: part, Intermediate: true, Delay: delay}})
+		layouts = append(layouts, layoutDef{"one shard through an intermediate node", ra, Layout{Leaves: [][]int{{0}}, Intermediate: true, Delay: delay}})
+	}
+	type answer struct {
+		name string
+		err  error
+		rs   *commonmodels.ResultSet
+	}
+	var answers []answer
+	for _, l := range layouts {
+		rs, err := l.r.n.Query(l.r.db, sqlText, l.lay)
+		c.Oracle()
+		answers = append(answers, answer{l.name, err, rs})
+		if err != nil {
+			for _, kk := range rk.unknownKeys(q, before) {
+				if strings.Contains(err.Error(), "tag key: "+kk) {
+					err = nil
+				}
+			}
+			if err == nil {
+				c.Sim.Probe("unknown-tag-key")
+				continue
+			}
+			if strings.Contains(err.Error(), "not found") && len(exp) == 0 {
+				c.Sim.Probe("empty-result")
+				continue
+			}
+			if strings.Contains(err.Error(), "not found") {
+				c.Violate("C12/data-not-found", "%s [%s]: query failed with %q but %d groups are expected", sqlText, l.name, err, len(exp))
+				return
+			}
+			c.Violate("C12/query-failed", "%s [%s]: %v", sqlText, l.name, err)
+			return
+		}
+		rk.compare(sqlText+" ["+l.name+"]", q, exp, rs)
+		if c.Violated() {
+			return
+		}
+	}
+	// metamorphic relation: all layouts give the same answer. Fields whose aggregate depends on the order
+	// in which series are merged (last/first) are only compared when a group is one series.
+	agg := fieldSpecs[q.field].agg
+	oneSeriesPerGroup := false
+	for _, g := range q.groupBy {
+		if g == "id" {
+			oneSeriesPerGroup = true
+		}
+	}
+	comparable := agg == "sum" || agg == "min" || agg == "max" || oneSeriesPerGroup
+	base := answers[0]
+	for _, a := range answers[1:] {
+		if (a.err == nil) != (base.err == nil) {
+			c.Violate("C12/layout-changes-outcome", "%s: [%s] answered err=%v, [%s] answered err=%v", sqlText, base.name, base.err, a.name, a.err)
+			return
+		}
+		if a.err != nil {
+			continue
+		}
+		if d := diffResult(q, base.rs, a.rs, comparable); d != "" {
+			c.Violate("C12/layout-changes-answer", "%s: [%s] and [%s] differ: %s", sqlText, base.name, a.name, d)
+			return
+		}
+	}
+	c.Sim.Probe(fmt.Sprintf("layouts-%d", len(answers)))
+}
+
+func groupKey(q queryDef, s *commonmodels.Series) string {
+	var key []string
+	for _, k := range q.groupBy {
+		key = append(key, s.Tags[k])
+	}
+	return strings.Join(key, ",")
+}
+
+// diffResult compares two result sets: groups with at least one value of the field, and (if values) every value.
+func diffResult(q queryDef, a, b *commonmodels.ResultSet, values bool) string {
+	fname := fieldSpecs[q.field].name
+	idx := func(rs *commonmodels.ResultSet) map[string]map[int64]float64 {
+		m := map[string]map[int64]float64{}
+		for _, s := range rs.Series {
+			if len(s.Fields[fname]) == 0 {
+				continue
+			}
+			m[groupKey(q, s)] = s.Fields[fname]
+		}
+		return m
+	}
+	ma, mb := idx(a), idx(b)
+	keys := map[string]bool{}
+	for k := range ma {
+		keys[k] = true
+	}
+	for k := range mb {
+		keys[k] = true
+	}
+	var ks []string
+	for k := range keys {
+		ks = append(ks, k)
+	}
+	sort.Strings(ks)
+	for _, k := range ks {
+		va, oka := ma[k]
+		vb, okb := mb[k]
+		if oka != okb {
+			return fmt.Sprintf("group %q present=%v / present=%v", k, oka, okb)
+		}
+		if len(va) != len(vb) {
+			return fmt.Sprintf("group %q has %d / %d slots", k, len(va), len(vb))
+		}
+		var ts []int64
+		for t := range va {
+			ts = append(ts, t)
+		}
+		sort.Slice(ts, func(i, j int) bool { return ts[i] < ts[j] })
+		for _, t := range ts {
+			x, ok := vb[t]
+			if !ok {
+				return fmt.Sprintf("group %q slot %s only in the first", k, fmtTime(t))
+			}
+			if values && x != va[t] {
+				return fmt.Sprintf("group %q slot %s = %v / %v", k, fmtTime(t), va[t], x)
+			}
+		}
+	}
+	if a.Interval != b.Interval || a.StartTime != b.StartTime || a.EndTime != b.EndTime {
+		return fmt.Sprintf("interval/start/end %d/%d/%d vs %d/%d/%d", a.Interval, a.StartTime, a.EndTime, b.Interval, b.StartTime, b.EndTime)
+	}
+	return ""
+}
